@@ -30,7 +30,7 @@ func init() {
 	engine.Register(&engine.Check{
 		ID:    "C20",
 		Level: "model_checking",
-		Rule: "decode side: every accepted byte string among the encodings of the message universe (sequences up to the depth bound, all liberties) and their single-octet mutation closure, through Decode and through DecodeDecrypt (9 suites, both roles): (i) alias invariant — no byte-slice region (base, cap) reachable from the decoded message (IKEHeader.PayloadBytes excepted as documented) intersects the input buffer, which covers all subsequent writes; cross-checked behaviourally by overwriting the input with 0x00 / 0xFF / its complement and comparing dumps. " +
+		Rule: "decode side: every accepted byte string among the encodings of the message universe (sequences up to the depth bound, all liberties) and their single-octet mutation closure, through Decode, through DecodeDecrypt (9 suites, both roles) and through the keyless entry points (DecodeDecrypt with nil keys × {no header, header parsed from the receive buffer, header parsed from a copy}, ParseHeader + DecodePayload): (i) alias invariant — no byte-slice region (base, cap) reachable from the decoded message (IKEHeader.PayloadBytes excepted as documented) intersects the input buffer, which covers all subsequent writes; cross-checked behaviourally by overwriting the input with 0x00 / 0xFF / its complement and comparing dumps. " +
 			"encode side: for every message of the universe: the dump of every payload is unchanged by Encode, the returned buffer intersects nothing reachable from the message, overwriting it changes neither the message nor a later encoding, three consecutive encodings are byte-identical, and buffers returned earlier (for this and for the previously encoded message, at message and at container level) stay intact after later Encode calls; " +
 			"protect side: EncodeEncrypt leaves every original payload object unchanged, replaces the list by exactly [SK] and changes no header field other than NextPayload/PayloadBytes. A state is a canonical dump of a message object graph; distinct_nontrivial counts distinct message dumps with >= 1 payload checked",
 		Assumptions: []string{"state changes inside the key object are C17's subject; writes of a decoder into its input are C18's subject; both are only noted here"},
@@ -195,6 +195,43 @@ func c20Decode(c *engine.Ctx, cs c20Case, in []byte) {
 	if r, ok := engine.Overlaps(regs, buf); ok {
 		c.Violate("decoded-field-aliases-input/"+fieldOf(r.Path), fmt.Sprintf("%s: after Decode the field %s (len %d, cap %d) shares memory with the input buffer", cs.Name, r.Path, r.Len, r.Cap), cs)
 		return
+	}
+	// the other ways a receiver decodes the same datagram: DecodeDecrypt without keys, with and without a header it
+	// parsed beforehand (from the receive buffer itself or from a copy), and ParseHeader + DecodePayload
+	for mode := 0; mode < 4; mode++ {
+		var got *message.IKEMessage
+		var derr error
+		pi := engine.Catch(func() {
+			switch mode {
+			case 0:
+				got, derr = ike.DecodeDecrypt(b, nil, nil, message.Role_Responder)
+			case 1:
+				var hdr *message.IKEHeader
+				if hdr, derr = message.ParseHeader(b); derr == nil {
+					got, derr = ike.DecodeDecrypt(b, hdr, nil, message.Role_Initiator)
+				}
+			case 2:
+				var hdr *message.IKEHeader
+				if hdr, derr = message.ParseHeader(append([]byte(nil), b...)); derr == nil {
+					got, derr = ike.DecodeDecrypt(b, hdr, nil, message.Role_Responder)
+				}
+			default:
+				var hdr *message.IKEHeader
+				if hdr, derr = message.ParseHeader(b); derr == nil {
+					got = &message.IKEMessage{IKEHeader: hdr}
+					derr = got.DecodePayload(b[28:])
+				}
+			}
+		})
+		if pi != nil || derr != nil || got == nil {
+			continue
+		}
+		if r, ok := engine.Overlaps(engine.Regions(&got.Payloads), buf); ok {
+			how := []string{"DecodeDecrypt(no keys, no header)", "DecodeDecrypt(no keys, header parsed from the receive buffer)", "DecodeDecrypt(no keys, header parsed from a copy)", "ParseHeader + DecodePayload"}[mode]
+			c.Violate("decoded-field-aliases-input/"+fieldOf(r.Path)+"/alternative-entry-point", fmt.Sprintf("%s: after %s the field %s (len %d, cap %d) shares memory with the receive buffer", cs.Name, how, r.Path, r.Len, r.Cap), cs)
+			return
+		}
+		c.Count("alternative_entry_points_checked", 1)
 	}
 	// inside one decoded message every byte slice has its memory to itself, spare capacity included: appending to
 	// one field (a non-mutating append by the holder) must not be able to reach another field
